@@ -74,7 +74,9 @@ def mutate(rnd, b):
     return bytes(b)
 
 
-NAMES = [b'a', b'a b', b'@', b'a@', b'@b', b'a@b@c', b'.', b'..x', b'.hidden', b'x.y.z', b'\xff\xfe', b'n\xffx', b'\xc3\xa9', b'a' * 200, b'-', b'%n', b'a\\x2db', b'a\nb', b'"q"', b"'", b'[x]', b'=', b'#']
+NAMES = [b'a', b'a b', b'@', b'a@', b'@b', b'a@b@c', b'.', b'..x', b'.hidden', b'x.y.z', b'\xff\xfe', b'n\xffx', b'\xc3\xa9', b'a' * 200, b'-', b'%n', b'a\\x2db', b'a\nb', b'"q"', b"'", b'[x]', b'=', b'#',
+         # file names at the limit of what a directory entry can hold: the service name is longer than the unit's name (…-volume.service)
+         b'n' * 240, b'n' * 245, b'n' * 246, b'n' * 247]
 
 
 # directories (below the search directory) the files are put in: the walk descends into them; their names are data too
@@ -207,14 +209,26 @@ def oracle(ctx):
             except OSError:
                 pass
         r = []
+        # "for that file only": a plain unit that is processed late (a .pod, after everything else) sits in every tree; whatever the
+        # other files are, a run that ends on its own has generated it
+        try:
+            with open(os.path.join(base, 'src', 'zz-bystander.pod'), 'w') as f:
+                f.write('[Pod]\n')
+        except OSError:
+            pass
         for args in (['--dry-run', '--no-kmsg-log'], ['--no-kmsg-log'], ['-v'], []):
-            rc, so, se = e2e.run_binary(args + [os.path.join(base, 'out')], os.path.join(base, 'src'), timeout=10)
-            r.append((rc, se[-400:]))
+            out = os.path.join(base, 'out' + str(len(r)))
+            rc, so, se = e2e.run_binary(args + [out], os.path.join(base, 'src'), timeout=10)
+            by = ('zz-bystander-pod.service' in so) if '--dry-run' in args else os.path.isfile(os.path.join(out, 'zz-bystander-pod.service'))
+            r.append((rc, se[-400:] + ('' if by or rc not in (0, 1) else ' [BYSTANDER-MISSING]')))
         shutil.rmtree(base, ignore_errors=True)
         return r
     for files, rs in zip(trees_, e2e.pmap(run, trees_)):
         for (rc, se), mode in zip(rs, ('--dry-run', 'normal run', 'normal run, logging to /dev/kmsg, -v', 'normal run, logging to /dev/kmsg')):
             res.oracle_evals += 1
+            if rc in (0, 1) and '[BYSTANDER-MISSING]' in se and not any(k.endswith(b'zz-bystander.pod') or b'zz-bystander' in k for k in files):
+                res.oracle_failures.append(dict(op='e2e', input={k.decode('utf-8', 'backslashreplace')[:300]: (str(v) if isinstance(v, tuple) else v.decode('utf-8', 'backslashreplace')[:300]) for k, v in files.items()},
+                                                impl_output=f'{mode}: exit status {rc}; {se}', oracle_expectation='the unrelated unit zz-bystander.pod of the same tree is generated: a file that cannot be handled is an error for that file only'))
             if rc not in (0, 1):
                 res.oracle_failures.append(dict(op='e2e', input={k.decode('utf-8', 'backslashreplace')[:300]: (str(v) if isinstance(v, tuple) else v.decode('utf-8', 'backslashreplace') if len(v) < 600 else v[:200].decode('utf-8', 'replace') + f' … [{len(v)} bytes]') for k, v in files.items()},
                                                 impl_output=f'{mode}: exit status {rc}; {se}', oracle_expectation='terminates on its own with exit status 0 or 1'))
